@@ -1294,6 +1294,12 @@ func (b *beacon) ReindexExpiration(treasures []treasure.Treasure) {
 		if t.GetExpirationTime() == 0 {
 			continue
 		}
+		// SelectExpiredForPatch leaves the selected entries in treasuresByKeys; an entry that is
+		// no longer there was deleted from this beacon in the meantime and must not get its
+		// slot in the ordered slice back (it would be handed out again although it is gone).
+		if cur, ok := b.treasuresByKeys[t.GetKey()]; !ok || cur != t {
+			continue
+		}
 		b.treasuresByOrder = append(b.treasuresByOrder, t)
 	}
 	// Mirror SortByExpirationTimeAsc's comparator. We always sort
